@@ -195,6 +195,7 @@ type fsDriver struct {
 	fs   filesys.Filesys
 	glob bool
 	fds  []filesys.File
+	done map[int]bool // descriptors the history closed itself
 	root string
 	dirf *filesys.DirFs
 }
@@ -206,6 +207,19 @@ func scribble(b []byte) {
 }
 
 func (fd *fsDriver) reset() string {
+	// descriptors the previous history left open are closed here: a long stream of histories must not run the process
+	// into its descriptor limit (DirFs descriptors are OS descriptors)
+	if fd.fs != nil {
+		for i, f := range fd.fds {
+			if !fd.done[i] {
+				func() {
+					defer func() { recover() }()
+					fd.fs.Close(f)
+				}()
+			}
+		}
+	}
+	fd.done = map[int]bool{}
 	if fd.dirf != nil {
 		func() {
 			defer func() { recover() }()
@@ -280,6 +294,9 @@ func (fd *fsDriver) one(w []string) string {
 			f, ok := getfd(w[1])
 			if !ok {
 				return "bad-op"
+			}
+			if k, err := strconv.Atoi(w[1]); err == nil {
+				fd.done[k] = true
 			}
 			if fd.glob {
 				filesys.Close(f)
